@@ -30,7 +30,7 @@ func (r *Record) IsExpired() bool {
 // IsExpired checks the ttl if expired or not.
 func IsExpired(ttl uint32, timestamp uint64) bool {
 	now := time.Now().Unix()
-	if ttl > 0 && uint64(ttl)+timestamp > uint64(now) || ttl == Persistent {
+	if ttl > 0 && (timestamp > uint64(now) || uint64(now)-timestamp < uint64(ttl)) || ttl == Persistent {
 		return false
 	}
 
